@@ -467,6 +467,8 @@ class C09(Prop):
                     lines += stepped_iteration(rnd, lines, 'c09')
             lines += ['check save f', 'add %s [ ] sNEWP -' % new, 'check unchanged f',
                       'check save %s' % new, 'add f [ ] sNEWQ { sk i3 }', 'check unchanged %s' % new]
+            # copy.deepcopy of the filtration itself, from wherever the index stands and from a non-minimal index
+            lines += ['! setattr f sNEWQ snested s%5B1%2C2%5D', 'check deepcopy-filt f', '! max f', 'check deepcopy-filt f']
             scripts.append(lines)
         return scripts, {'op_mix': stats, 'generator': 'two-complex worlds with attributes; each copy-like constructor followed by structural and in-place attribute mutations on either side'}
 
